@@ -43,6 +43,7 @@ OPTIONAL_FEATURES = frozenset({
     "allof",              # allOf of object schemas: disjoint + identical overlapping properties
     "allof_closed",       # ... one branch closed (additionalProperties:false) and covering the others
     "allof_unsat",        # ... unsatisfiable conjunctions (gen_valid raises Unsat)
+    "allof_refine",       # ... one property declared twice with DIFFERENT compatible schemas (length/range vs enum, number vs enum)
     "not",                # {"type":"string","not":{"enum":[...]}} deny lists
     "not_untyped",        # {"not":{"enum":[...]}} as in the repository fixture (wider than the Rust type)
     "map_keys",           # maps with constrained keys (propertyNames / one patternProperties entry) and any-valued maps
@@ -64,7 +65,7 @@ FEATURE_SETS = {
     "default": DEFAULT_FEATURES,
     "formats": DEFAULT_FEATURES | {"string_formats"},
     "recursive": DEFAULT_FEATURES | {"recursion", "root_ref"},
-    "allof": DEFAULT_FEATURES | {"allof", "allof_closed"},
+    "allof": DEFAULT_FEATURES | {"allof", "allof_closed", "allof_refine"},
     "not": DEFAULT_FEATURES | {"not"},
     "defaults": DEFAULT_FEATURES | {"defaults"},
     "idioms": DEFAULT_FEATURES | {"idioms", "const"},
@@ -74,7 +75,7 @@ FEATURE_SETS = {
                       "int_formats", "bool", "refs", "inline", "not"}),
     "c06": DEFAULT_FEATURES | {"defaults", "invalid_defaults"},
     "c09": frozenset({"struct", "closed", "strenum", "vec", "map", "option", "int_formats", "bool",
-                      "refs", "allof", "allof_closed", "allof_unsat"}),
+                      "refs", "allof", "allof_closed", "allof_unsat", "allof_refine"}),
     "hostile": DEFAULT_FEATURES | {"hostile_names"},
     "maps": DEFAULT_FEATURES | {"map_keys", "any", "defaults"},
     "all": ALL_FEATURES - {"hostile_names", "invalid_defaults", "allof_unsat", "not_untyped"},
@@ -487,6 +488,7 @@ class _Universe:
         if k == "enum":
             if t["tagging"] in ("internal", "adjacent"): return "object"
             return None
+        if k == "raw": return {"string": "string", "integer": "number", "number": "number", "boolean": "boolean"}.get(t["schema"].get("type"))
         return _JCLASS.get(k)
 
     def nullable(self, t):
@@ -675,8 +677,18 @@ class _Universe:
         tag = r.choice(TAG_NAMES)
         content = r.choice(CONTENT_NAMES)
         variants = []
+        # look-alike: an internally tagged union whose variants all carry ONE member of the same name (what an
+        # adjacently tagged union looks like when that member is required everywhere); members optional in some variants
+        lookalike = tagging == "internal" and self.coin(0.25)
+        shared = r.choice(CONTENT_NAMES + ["value", "body", "data"]) if lookalike else None
         for i, vn in enumerate(vnames):
             guarded = i > 0          # variant 0 never refers backwards: keeps every enum inhabited
+            if lookalike and not (i > 0 and self.coin(0.2)):
+                st = r.choice(["required", "optional", "required", "default" if self.has("defaults") else "optional"])
+                t = self.t_scalar() if self.coin(0.6) else self.t_any(max(depth - 1, 0), guarded, allow_opt=False, inline=False)
+                variants.append({"name": vn, "shape": "struct", "closed": False,
+                                 "props": [{"name": shared if shared != tag else shared + "_", "t": t, "state": st}]})
+                continue
             shapes = [("unit", 3), ("struct", 3)]
             if tagging != "internal": shapes += [("newtype", 3), ("tuple", 1 if self.has("tuple") else 0)]
             sh = _weighted(r, shapes)
@@ -755,6 +767,32 @@ class _Universe:
                 q = copy.deepcopy(src); q["state"] = r.choice(["required", "optional"])
                 if q["state"] == "optional" and src["state"] == "default": q["state"] = "optional"
                 tgt["props"].append(q); mode = "overlap"
+        if self.has("allof_refine") and self.coin(0.4):
+            # the same property on two sides with different, compatible constraints: the merge has to intersect them
+            nm = self.names.pick(PROP_NAMES, 1, avoid=used)[0]; used.add(nm)
+            kind = r.choice(["len_enum", "len_enum", "num_enum", "range_enum", "pat_enum", "len_len"])
+            if kind == "len_enum":
+                n = r.randint(1, 4)
+                pool = ["a" * n, "\u00e9" * n, "\u65e5" * n, "x" + "\u00e9" * (n - 1), "\U0001F600" * n, "b" * max(n - 1, 0), "z" * (n + 1), "\u00e9" * (n + 1), "abcdefgh"]
+                a = {"type": "string", "maxLength": n}; b = {"type": "string", "enum": sorted(set(r.sample(pool, 5)) | {"a" * n, "\u00e9" * n})}
+            elif kind == "num_enum":
+                a = {"type": r.choice(["number", ["number", "null"]])}; b = {"enum": r.sample([1, 2, 2.5, 4, 0.5, -3, 10], 4)}
+            elif kind == "range_enum":
+                a = {"type": "integer", "minimum": 0, "maximum": 10}; b = {"type": "integer", "enum": sorted(r.sample([-1, 0, 3, 7, 10, 11, 100], 4) + [5])}
+            elif kind == "pat_enum":
+                a = {"type": "string", "pattern": "^[a-z]+$"}; b = {"type": "string", "enum": ["abc", "x", "A", "a1", "\u00e9t\u00e9", "zz"]}
+            else:
+                a = {"type": "string", "minLength": 1}; b = {"type": "string", "maxLength": r.randint(1, 5)}
+            if self.coin(0.5): a, b = b, a
+            hosts = inl[:2] if len(inl) >= 2 else None
+            if hosts is None:
+                extra = {"k": "struct", "props": [], "closed": False}; parts.append(extra); inl.append(extra)
+                if len(inl) < 2:
+                    extra2 = {"k": "struct", "props": [], "closed": False}; parts.append(extra2); inl.append(extra2)
+                hosts = inl[:2]
+            hosts[0]["props"].append({"name": nm, "t": {"k": "raw", "schema": a}, "state": r.choice(["required", "optional"])})
+            hosts[1]["props"].append({"name": nm, "t": {"k": "raw", "schema": b}, "state": r.choice(["required", "optional"])})
+            mode = "refine"
         if self.has("allof_closed") and self.coin(0.3):
             # a closed branch that declares every property of the others (still satisfiable)
             cover = []
@@ -871,6 +909,7 @@ class _Printer:
 
     def p(self, t):
         k = t["k"]
+        if k == "raw": return copy.deepcopy(t["schema"])
         if k == "bool": return {"type": "boolean"}
         if k == "int":
             s = {"type": "integer"}
